@@ -58,7 +58,8 @@ type eventForm struct {
 }
 
 func eventForms(full bool) []eventForm {
-	entries := []seqx.Entry{{Kind: "Info"}, {Kind: "Debug"}, {Kind: "Log"}, {Kind: "WithLevel", Level: zerolog.WarnLevel}, {Kind: "Err"}, {Kind: "ErrNil"}, {Kind: "Error"}, {Kind: "WithLevel", Level: zerolog.Level(-3)}, {Kind: "WithLevel", Level: zerolog.Level(42)}}
+	entries := []seqx.Entry{{Kind: "Info"}, {Kind: "Debug"}, {Kind: "Log"}, {Kind: "WithLevel", Level: zerolog.WarnLevel}, {Kind: "Err"}, {Kind: "ErrNil"}, {Kind: "Error"}, {Kind: "WithLevel", Level: zerolog.Level(-3)}, {Kind: "WithLevel", Level: zerolog.Level(42)},
+		{Kind: "Trace"}, {Kind: "WithLevel", Level: zerolog.FatalLevel}, {Kind: "WithLevel", Level: zerolog.PanicLevel}, {Kind: "WithLevel", Level: zerolog.Disabled}}
 	fieldSets := [][]seqx.Field{nil, {{M: "Str", Key: "f1", Val: "x"}}, {{M: "Int", Key: "f1", Val: 1}, {M: "Dict", Key: "f2", Sub: []seqx.Field{{M: "Str", Key: "in", Val: "y"}}}}}
 	finals := []seqx.Final{msgM, msgEmpty, {Kind: "Msgf", Text: "fm"}, msgFunc, send, {Kind: "MsgfRaw", Text: "100%% d"}, {Kind: "MsgfArgs", Text: "x"}}
 	var out []eventForm
